@@ -11,7 +11,7 @@ Two facts about the pinned code that the contract states rather than hides:
    np.sqrt of a negative `remaining`, the NaN epsilon reaches prng.choice, which raises before anything further is
    released, and run() never returns.  sqrt='abort' encodes exactly this (rule 2.3(2) of DESIGN.md); the bounded
    tier replays such settings and checks that no output is produced.
- * line 95 divides by 2*0.9*remaining with a numpy scalar; remaining == 0 gives sigma = inf, epsilon = 0 under
+ * `1 / (2*0.9*remaining)` divides by a numpy scalar; remaining == 0 gives sigma = inf, epsilon = 0 under
    IEEE arithmetic (nothing is released on that path).  The real-arithmetic proof assumes the divisor non-zero there
    (listed as an unchecked assumption).
 """
@@ -84,7 +84,7 @@ WORST = dict(
 RUN = dict(
     params=dict(self='obj:AIM', data=M.dataset_param(), W='obj:list'), attr_types=ATTR,
     requires=['ghost("ledger_rho") == 0', 'self.rho >= 0', 'self.rounds >= 0'],
-    sqrt='abort', ieee_zero_division_assumed_away=(95,),
+    sqrt='abort', ieee_zero_division_assumed_away=('2*0.9*remaining',),
     local_types={'t': 'int', 'terminate': 'bool', 'sigma': 'npreal', 'epsilon': 'npreal', 'rho_used': 'npreal', 'cl': 'obj:',
                  'x': 'obj:', 'y': 'obj:', 'n': 'obj:', 'z': 'obj:', 'w': 'obj:', 'Q': 'obj:', 'I': 'obj:', 'remaining': 'npreal',
                  'size_limit': 'obj:', 'small_candidates': 'obj:dict', 'model': 'obj:model'},
